@@ -93,6 +93,8 @@ fn ident_templates() -> Vec<&'static str> {
         "backend {I} prologue \"text\";\n",
         "#[{I}]\npub type T {\n    #[{I}(1)]\n    pub a: u32,\n}\n",
         "pub type B {\n    pub x: u32,\n}\npub type D {\n    #[base]\n    pub {I}: B,\n}\nimpl B {\n    #[address(0x10)]\n    pub fn f(&self);\n}\n",
+        "pub type R {\n    pub x: u32,\n}\npub type A {\n    #[base]\n    pub {I}: R,\n}\npub type B {\n    #[base]\n    pub r: R,\n}\npub type D {\n    #[base]\n    pub {I}: A,\n    #[base]\n    pub b: B,\n}\nimpl R {\n    #[address(0x10)]\n    pub fn {I}(&self);\n}\n",
+        "pub type {I} {\n    vftable {\n        pub fn {I}(&self);\n    },\n}\npub type D {\n    #[base]\n    pub {I}: {I},\n    pub x: *const u8,\n}\n#[address(0x10)]\npub extern g: *const {I};\n",
     ]
 }
 
